@@ -512,10 +512,10 @@ def inline_new_helpers(facts):
         m_ = _re2.match(r"^<(.+) as ([^>]+(?:<.*>)?)>::([A-Za-z_0-9]+)$", p)
         if m_ and p not in pinned and f.get("body") is not None and m_.group(2) not in old_traits and not m_.group(2).startswith(("std::", "core::", "alloc::", "rayon::")):
             impls.setdefault(m_.group(2) + "::" + m_.group(3), []).append((m_.group(1), p))
-        elif m_ and p not in pinned and f.get("body") is not None and m_.group(3) in ("from", "default") and m_.group(2).startswith(("std::convert::From", "std::default::Default")):
+        elif m_ and p not in pinned and f.get("body") is not None and m_.group(3) == "from" and m_.group(2).startswith("std::convert::From"):
             # a new `impl From<..> for LocalType` / `impl Default for LocalType` (a private parameter bundle): chosen by the type that is produced
             impls.setdefault(m_.group(2).split("<", 1)[0] + "::" + m_.group(3), []).append((m_.group(1), p))
-    if impls:
+    if True:
         types = facts.get("types") or []
 
         def self_ty(x):
@@ -533,6 +533,20 @@ def inline_new_helpers(facts):
         def resolve_trait_calls():
             for f in fns.values():
                 for x in _walk(f.get("body")):
+                    if x.get("k") == "mcall" and _callee(x) == "std::convert::Into::into" and not x.get("args"):
+                        # `v.into()` is `U::from(v)` for the `impl From<T> for U` that produces the expected type
+                        tu, tv = x.get("t"), (x["recv"].get("t") if isinstance(x.get("recv"), dict) else None)
+                        if tu is not None and tv is not None and tu < len(types) and tv < len(types):
+                            want_ = "<%s as std::convert::From<%s>>::from" % (types[tu], types[tv])
+                            if want_ not in fns:
+                                # an impl for a foreign type (a tuple) is named after the module it is written in
+                                alt_ = [p_ for p_ in fns if p_.endswith("<impl std::convert::From<%s> for %s>::from" % (types[tv], types[tu]))]
+                                want_ = alt_[0] if len(alt_) == 1 else want_
+                            if want_ in fns and want_ not in pinned and fns[want_].get("body") is not None:
+                                recv_ = x["recv"]
+                                x.pop("recv", None)
+                                x.update({"k": "call", "callee": want_, "f": {"k": "path", "def": want_, "line": x.get("line")}, "args": [recv_], "resolved_from_trait": True})
+                        continue
                     if x.get("k") in ("call", "mcall") and _callee(x) in impls:
                         cands = impls[_callee(x)]
                         st_ = self_ty(x)
@@ -544,6 +558,7 @@ def inline_new_helpers(facts):
                             x["resolved_from_trait"] = True
         resolve_trait_calls()
         new += [ip for lst in impls.values() for (_, ip) in lst]
+        new += [p_ for p_, f_ in fns.items() if p_ not in pinned and f_.get("body") is not None and "<impl std::convert::From<" in p_ and p_.endswith(">::from") and p_ not in new]
     else:
         resolve_trait_calls = lambda: None
     if not new:
